@@ -67,7 +67,7 @@ def build(spec, backend='lambda', cls='SimulateOde', limits=None):
                 tl.append(pm.Transition(origin=o, transition_type='D', magnitude=mag))
         evs.append(pm.Event(rate=rate, transition_list=tl))
     odes = [pm.Transition(origin=s, equation=eq, transition_type='ODE') for s, eq in spec['odes']]
-    state_decl = spec['state_decl'] if limits is None else [(s, l) for s, l in zip(spec['states'], limits)]
+    state_decl = spec['state_decl'] if limits is None else [((s, tuple(l)) if l is not None else s) for s, l in zip(spec['states'], limits)]
     with native.quiet():
         m = getattr(pm, cls)(state_decl, spec['params'], derived_param=spec['derived'] or None, event=evs or None, ode=odes or None)
         if backend != 'cython':
